@@ -179,9 +179,11 @@ func FuncBuilder(env *Zlisp, name string,
 	for i := len(argsyms) - 1; i >= 0; i-- {
 		gen.AddInstruction(PopStackPutEnvInstr{argsyms[i]})
 	}
-	err = gen.GenerateBegin(body)
-	if err != nil {
-		return MissingFunction, err
+	if len(body) > 0 {
+		err = gen.GenerateBegin(body)
+		if err != nil {
+			return MissingFunction, err
+		}
 	}
 
 	// minimal sanity check that we return the number of arguments
